@@ -486,6 +486,32 @@ def Heights : Option Nat → List Op → Prop
   | top, .block idx _ :: r => (∀ h, top = some h → h < idx) ∧ Heights (some idx) r
   | top, _ :: r => Heights top r
 
+/-! ### state-sync restore (billet.go) -/
+
+/-- all positions of the unfolded trie, parents first: the (node, path) pairs the MPT pool hands to
+`Billet.RestoreHashNode`, each exactly once (billet.go:30-36). -/
+def positions : Node → List Node
+  | .empty => []
+  | .leaf v => [.leaf v]
+  | .ext k n => .ext k n :: positions n
+  | .branch cs v =>
+    .branch cs v :: ((List.finRange 16).flatMap (fun i => positions (cs i)) ++
+      (match v with
+       | some w => [.leaf w]
+       | none => []))
+
+/-- billet.go:189-210 `incrementRefAndStore` (the active flag of an existing record is not consulted). -/
+def incrRef (H : Bytes → Bytes) (mode : Mode) (s : Store) (n : Node) : Store :=
+  if mode.rc then
+    match sget s (hash H n) with
+    | some (.rc b a c) => sput s (hash H n) (.rc b a (c + 1))
+    | _ => sput s (hash H n) (.rc (enc H n) true 1)
+  else sput s (hash H n) (.plain (enc H n))
+
+/-- restoring a whole trie into the store. -/
+def restoreAll (H : Bytes → Bytes) (mode : Mode) (s : Store) (t : Node) : Store :=
+  (positions t).foldl (incrRef H mode) s
+
 /-! ### reading a root through the store (module.go:76-81 GetState: mode without the GC flag) -/
 
 /-- trie.go:96-143 over records fetched by key (trie.go:518-545 `getFromStore`). -/
